@@ -6,9 +6,10 @@ import Marwood.Lemmas.PreludeAgree
 `defs` is `Gen.PreludeProcs.procs` (regenerated from `prelude.scm` on every run) read by
 `parseDef`; `interp P defs fuel name` is the meaning `Store/PreludeInterp.lean` gives to the global
 `name`. For every modelled procedure the hand-written model is proved equal to that image, for every
-fuel, store and argument (`interp_length`, `interp_mem…`, `interp_ass…`, `interp_anyNull`,
-`interp_map1`, `interp_map`, `interp_forEach`). The syntax trees the proofs unfold (`lengthDef`, …) are
-not trusted: `find_*` checks each against `parseDef` of the regenerated datum by kernel evaluation.
+fuel, store and argument (`interp_length` with `localFn_count` for its `letrec`-bound `count`,
+`interp_mem…`, `interp_ass…`, `interp_anyNull`, `interp_map1`, `interp_map`, `interp_forEach`). The
+syntax trees the proofs unfold (`lengthDef`, …) are not trusted: `find_*` checks each against `parseDef`
+of the regenerated datum by kernel evaluation.
 -/
 namespace Marwood.Store.Prelude
 open Marwood Marwood.Store Marwood.Store.Outcome
@@ -18,9 +19,19 @@ open Marwood Marwood.Store Marwood.Store.Outcome
 def defs : List Def := Gen.PreludeProcs.procs.filterMap fun p => parseDef p.2
 
 open Expr in
+/-- the body of the `letrec`-bound `count` of `length` -/
+def countBody : Expr :=
+  ite (call1 "null?" (var "fast")) (var "n")
+    (ite (call1 "null?" (call1 "cdr" (var "fast"))) (call2 "+" (var "n") (const (.num 1)))
+      (ite (call2 "eq?" (call1 "cdr" (call1 "cdr" (var "fast"))) (call1 "cdr" (var "slow")))
+        (call1 "cdr" (const circularListSym))
+        (call3 "count" (call1 "cdr" (call1 "cdr" (var "fast"))) (call1 "cdr" (var "slow"))
+          (call2 "+" (var "n") (const (.num 2))))))
+
+open Expr in
 def lengthDef : Def := ⟨"length", ["list"], none,
-  ite (call1 "null?" (var "list")) (const (.num 0))
-    (call2 "+" (call1 "length" (call1 "cdr" (var "list"))) (const (.num 1)))⟩
+  letrec1 "count" ["fast", "slow", "n"] countBody
+    (call3 "count" (var "list") (var "list") (const (.num 0)))⟩
 
 theorem find_length : defs.find? (·.name == "length") = some lengthDef := by decide +kernel
 
@@ -66,27 +77,81 @@ theorem plusB_one (s : Store) (n : VCell) : plusB s [n, .num 1] = liftV s (add1 
 section
 variable {efuel : Nat} {user : String → Option Callee}
 
+theorem plusB_two (s : Store) (n : VCell) : plusB s [n, .num 2] = liftV s (add2 s n) := by
+  have h1 : s.get (.num 2) = .ok (.num 2) := rfl
+  simp only [plusB, add2, liftV, h1]
+  cases hg : s.get n with
+  | ok c => cases c <;> simp
+  | _ => simp
+
+theorem cdr_lift (s : Store) (x : VCell) : cdr s [x] = (do let v ← cdrV s x; .ok (s, v)) := by
+  simp only [cdrV, cdr]
+  cases hg : s.get x with
+  | ok c => cases c <;> rfl
+  | _ => rfl
+
+theorem isNullB_lift (s : Store) (x : VCell) : isNullB s [x] = (do let b ← nullP s x; .ok (s, .bool b)) := by
+  simp only [isNullB, nullP]
+  cases hg : s.get x <;> rfl
+
+theorem eqvB_lift (s : Store) (x y : VCell) : eqvB s [x, y] = (do let b ← eqTest s x y; .ok (s, .bool b)) := by
+  simp only [eqvB, eqTest]
+
+/-- the `letrec`-bound `count`, whatever list the enclosing `length` was called with -/
+theorem localFn_count (l0 : VCell) : ∀ (f : Nat) (s : Store) (fast slow n : VCell),
+    (handlers (prims efuel user) defs f).localFn
+        ⟨"count", ["fast", "slow", "n"], countBody, [("list", l0)]⟩ s [fast, slow, n] =
+      liftV s (lengthCount f s fast slow n)
+  | 0, s, fast, slow, n => rfl
+  | f+1, s, fast, slow, n => by
+    have hg1 := global_prim (P := prims efuel user) f (n := "null?") (by simp)
+    have hg2 := global_prim (P := prims efuel user) f (n := "cdr") (by simp)
+    have hg3 := global_prim (P := prims efuel user) f (n := "+") (by simp)
+    have hg4 := global_prim (P := prims efuel user) f (n := "eq?") (by simp)
+    have ih := localFn_count l0 f
+    simp only [handlers, countBody, List.length_cons, List.length_nil, if_true, List.zip_cons_cons,
+      List.zip_nil_right, List.cons_append, List.nil_append, evalE, callNamed, List.lookup, List.find?,
+      hg1, hg2, hg3, hg4, prims, bind_ok]
+    simp
+    simp only [countBody] at ih
+    simp only [ih, cdr_lift, isNullB_lift, eqvB_lift, plusB_one, plusB_two, liftV]
+    rw [lengthCount]
+    cases h1 : nullP s fast with
+    | ok b1 =>
+      cases b1 <;> simp
+      cases h2 : cdrV s fast with
+      | ok d =>
+        simp only [bind_ok]
+        cases h3 : nullP s d with
+        | ok b3 =>
+          cases b3 <;> simp
+          cases h4 : cdrV s d with
+          | ok dd =>
+            simp only [bind_ok]
+            cases h5 : cdrV s slow with
+            | ok sd =>
+              simp only [bind_ok]
+              cases h6 : eqTest s dd sd with
+              | ok b6 =>
+                cases b6 <;> simp [h2, h4, h5, h6]
+                cases add2 s n <;> simp
+              | _ => simp [h2, h4, h5, h6]
+            | _ => simp [h2, h4, h5]
+          | _ => simp [h2, h4]
+        | _ => simp
+      | _ => simp
+    | _ => simp
+
+/-- **`length`** -/
 theorem interp_length : ∀ (f : Nat) (s : Store) (l : VCell),
     interp (prims efuel user) defs f "length" s [l] = liftV s (length f s l)
   | 0, s, l => by rw [interp_zero find_length]; rfl
   | f+1, s, l => by
     rw [interp_succ find_length]
-    have hg1 := global_prim (P := prims efuel user) f (n := "null?") (by simp)
-    have hg2 := global_prim (P := prims efuel user) f (n := "cdr") (by simp)
-    have hg3 := global_prim (P := prims efuel user) f (n := "+") (by simp)
-    have hgl : (handlers (prims efuel user) defs f).global "length" = some (interp (prims efuel user) defs f "length") := by
-      rw [global_eq, find_length]; rfl
     simp only [lengthDef, bindArgs, List.length_cons, List.length_nil, List.zip_cons_cons, List.zip_nil_right,
-      if_true, bind_ok, evalE, callNamed, List.lookup, List.find?, hg1, hg2, hg3, hgl, prims]
-    rw [length, liftV]
-    cases hg : s.get l with
-    | ok c =>
-      cases c <;> simp [isNullB, nullP, hg, cdr, cdrV, VCell.isNil, liftV, interp_length f, plusB_one]
-      rename_i a d
-      cases length f s (.ptr d) <;> simp
-    | err e => simp [isNullB, nullP, hg]
-    | panic m => simp [isNullB, nullP, hg]
-    | diverge => simp [isNullB, nullP, hg]
+      if_true, bind_ok, evalE, callNamed, List.lookup, List.find?]
+    simp
+    rw [localFn_count (efuel := efuel) (user := user) l f s l l (.num 0), length]
 end
 
 /-! ### `memq`, `memv`, `member` -/
